@@ -17,11 +17,14 @@ pub struct StdDev<Q> {
     /// what `*TST?` finds
     pub tst: Option<Error>,
     pub rst_calls: u32,
+    /// what the device answers to a bus trigger (`*TRG`): accepted, or refused with this error
+    pub trg: Option<Error>,
+    pub trg_calls: u32,
 }
 
 impl<Q: Default> StdDev<Q> {
     pub fn new() -> Self {
-        StdDev { esr: 0, ese: 0, sre: 0, operation: EventRegister::default(), questionable: EventRegister::default(), errors: Q::default(), tst: None, rst_calls: 0 }
+        StdDev { esr: 0, ese: 0, sre: 0, operation: EventRegister::default(), questionable: EventRegister::default(), errors: Q::default(), tst: None, rst_calls: 0, trg: None, trg_calls: 0 }
     }
 }
 
@@ -177,6 +180,16 @@ impl<Q: QueueBackend> ErrorQueue for StdDev<Q> {
 
 impl<Q: QueueBackend> ScpiDevice for StdDev<Q> {}
 
+impl<Q: QueueBackend> scpi_contrib::ieee488::trg::CommonTrg for StdDev<Q> {
+    fn trig_bus(&mut self) -> Result<()> {
+        self.trg_calls += 1;
+        match self.trg {
+            None => Ok(()),
+            Some(e) => Err(e),
+        }
+    }
+}
+
 /// errors the harness `TEST:FAIL <n>` command returns (every class, with and without extended text)
 pub fn fail_table() -> &'static [Error] {
     use std::sync::OnceLock;
@@ -244,6 +257,8 @@ impl<Q: QueueBackend> Command<StdDev<Q>> for NopCommand {
 /// tree = ieee488_*!() + scpi_status!() + scpi_system!() + TEST:FAIL / TEST:NOP
 pub trait HasTree: Sized + scpi::Device + 'static {
     const TREE: Node<'static, Self>;
+    /// the same commands, the common (`*`) ones kept in a shared optional branch below the root
+    const TREE_NESTED: Node<'static, Self>;
 }
 
 impl<Q: QueueBackend + 'static> HasTree for StdDev<Q> {
@@ -263,6 +278,40 @@ impl<Q: QueueBackend + 'static> HasTree for StdDev<Q> {
                 ieee488_stb!(),
                 ieee488_tst!(),
                 ieee488_wai!(),
+                Leaf { name: b"*TRG", default: false, handler: &scpi_contrib::ieee488::trg::TrgCommand },
+                scpi_status!(),
+                scpi_system!(),
+                Branch {
+                    name: b"TEST",
+                    default: false,
+                    sub: &[Leaf { name: b"FAIL", default: false, handler: &FailCommand }, Leaf { name: b"NOP", default: false, handler: &NopCommand }],
+                },
+            ],
+        }
+    };
+    const TREE_NESTED: Node<'static, Self> = {
+        use scpi_contrib::{ieee488_cls, ieee488_ese, ieee488_esr, ieee488_idn, ieee488_opc, ieee488_rst, ieee488_sre, ieee488_stb, ieee488_tst, ieee488_wai, scpi_status, scpi_system};
+        Branch {
+            name: b"",
+            default: false,
+            sub: &[
+                Branch {
+                    name: b"MANDated",
+                    default: true,
+                    sub: &[
+                        ieee488_cls!(),
+                        ieee488_ese!(),
+                        ieee488_esr!(),
+                        ieee488_idn!(b"VERIF", b"HARNESS", b"0", b"1"),
+                        ieee488_opc!(),
+                        ieee488_rst!(),
+                        ieee488_sre!(),
+                        ieee488_stb!(),
+                        ieee488_tst!(),
+                        ieee488_wai!(),
+                        Leaf { name: b"*TRG", default: false, handler: &scpi_contrib::ieee488::trg::TrgCommand },
+                    ],
+                },
                 scpi_status!(),
                 scpi_system!(),
                 Branch {
